@@ -984,6 +984,32 @@ def controls(ctx):
 
 # ================================================================ driver
 
+def r7(prog, rep):
+    """R7 constant addresses stay inside their array: every getelementptr (instruction or constant expression) that
+    indexes a fixed-size array with a constant uses an index in 0..N (N = one past the end, legal only as a bound).
+    This is what bounds hand-written copy loops such as line_directive_out's `s3 = &filename[sizeof(filename) - 2]`."""
+    n = 0
+    for f in fns(prog):
+        locals_ = {}
+        for x in f.ins:
+            cands = []
+            if x.op == 'getelementptr' and x.srcty is not None and x.srcty.k == 'arr' and len(x.ops) >= 3 and x.ops[2][0] == 'int':
+                cands.append((x.srcty.a, x.ops[2][1], x.ops[0]))
+            for o in x.ops:
+                if isinstance(o, tuple) and o[0] == 'cgep' and o[1].k == 'arr' and len(o[3]) >= 2 and o[3][1][0] == 'int':
+                    cands.append((o[1].a, o[3][1][1], o[2]))
+            for N, idx, base in cands:
+                if N == 0: continue          # flexible / extern arrays of unknown size
+                n += 1
+                name = base[1] if base[0] in ('reg', 'glob') else '?'
+                if idx > N:
+                    rep.fail('C16.R7', 'C16.R7:%s:%s:%s[%d]' % (x.loc[0], f.name, name, N), where(x),
+                             'address &%s[%d] is computed for an array of %d elements: a bound or access beyond the end of a fixed buffer' % (name, idx, N))
+    if n:
+        rep.ok('C16.R7', '%d constant array addresses in flex are within [0, N]' % n)
+        o = rep.obl.setdefault('C16.R7', [0, 0]); o[0] += n - 1; o[1] += n - 1
+    return n
+
 def run(ctx):
     rep = ctx.rep
     prog = ctx.flex
@@ -998,6 +1024,7 @@ def run(ctx):
     counts['R4'] = r4(prog, rep)
     counts['R5'] = r5(prog, rep)
     counts['R6'] = r6(prog, rep)
+    counts['R7'] = r7(prog, rep)
     rep.setcount('translation_units', len(prog.modules))
     rep.setcount('functions_analysed', len(fns(prog)))
     for k_, v in counts.items(): rep.setcount('instances_' + k_, v)
@@ -1007,6 +1034,7 @@ def run(ctx):
     rep.floor('C16.R4', 50, 'census + strcpy + 9-10 strncpy + strncat + 41 (v)snprintf today')
     rep.floor('C16.R5', 2, 'mkstate, new_rule')
     rep.floor('C16.R6', 2, 'flexend unlink, check_options outfile_created')
+    rep.floor('C16.R7', 800, 'constant-index addresses of fixed arrays in flex')
     rep.undecided += ['termination and crash-freedom of flex on arbitrary input',
                       'bounds of writes that are not made through strcpy/strncpy/strncat/(v)snprintf (hand-written copy loops, array indexing)',
                       'that the functions holding a flush point perform the last write of the run to that stream (checked per function only)',
